@@ -269,9 +269,69 @@ fn timed(lines: &[String], bounds_s: &[f64]) -> Vec<String> {
     lines.iter().enumerate().map(|(i, l)| format!("{} {} {}", (bounds_s[i] * 1e7) as i64, (bounds_s[i + 1] * 1e7) as i64, l)).collect()
 }
 
+/// Synthesis from a thread that is shutting down: a thread-local value of the application (registered before or after the
+/// thread's first use of the library) whose destructor renders a last utterance.  Must complete with the right length.
+fn teardown_part(rep: &Report) {
+    use std::cell::RefCell;
+    use std::sync::mpsc::{channel, Sender};
+    struct Farewell {
+        engine: jbonsai::Engine,
+        labels: Vec<String>,
+        tx: Sender<Result<usize, String>>,
+    }
+    impl Drop for Farewell {
+        fn drop(&mut self) {
+            let r = catch(|| self.engine.synthesize(&self.labels[..]).map(|w| w.len()).map_err(|e| e.to_string()));
+            let _ = self.tx.send(match r {
+                Ok(Ok(n)) => Ok(n),
+                Ok(Err(e)) => Err(format!("error: {}", e)),
+                Err(p) => Err(format!("panic: {}", p)),
+            });
+        }
+    }
+    thread_local! {
+        static SLOT: RefCell<Option<Farewell>> = const { RefCell::new(None) };
+    }
+    let corpus = labels::corpus();
+    let labels: Vec<String> = corpus[40..42].to_vec();
+    for cfg in [GenCfg { nstate: 2, ..GenCfg::default() }, GenCfg { nstate: 2, ns: 2, stage: 2, order: 5, gv: true, ..GenCfg::default() }] {
+        let Ok(vc) = voice_case(&cfg) else { continue };
+        let want = vc.engine.synthesize(&labels[..]).map(|w| w.len()).unwrap_or(0);
+        for (order, warm) in [("the application's thread-local is set up first, then the thread renders, then it exits", true), ("the thread renders first, then the thread-local is set up", true), ("the thread never renders before it exits", false)] {
+            let (tx, rx) = channel();
+            let (engine, labs) = (vc.engine.clone(), labels.clone());
+            let first = order.starts_with("the application");
+            let h = std::thread::spawn(move || {
+                let fw = Farewell { engine: engine.clone(), labels: labs.clone(), tx };
+                if first {
+                    SLOT.with(|s| *s.borrow_mut() = Some(fw));
+                    if warm {
+                        let _ = engine.synthesize(&labs[..]);
+                    }
+                } else {
+                    if warm {
+                        let _ = engine.synthesize(&labs[..]);
+                    }
+                    SLOT.with(|s| *s.borrow_mut() = Some(fw));
+                }
+            });
+            let _ = h.join();
+            rep.eval(1);
+            rep.cmp(1);
+            let rp = json!({"voice": vc.name, "labels": labels, "scenario": format!("a thread-local destructor synthesizes while the thread shuts down; {}", order)});
+            match rx.recv_timeout(std::time::Duration::from_secs(60)) {
+                Ok(Ok(n)) if n == want => {}
+                Ok(Ok(n)) => rep.violation("teardown-length", format!("synthesis during thread shutdown returns {} samples, want {}", n, want), rp),
+                Ok(Err(e)) => rep.violation("teardown", format!("synthesis during thread shutdown fails ({}): {}", order, e), rp),
+                Err(_) => rep.violation("teardown", "the thread-local destructor never reported".to_string(), rp),
+            }
+        }
+    }
+}
+
 pub fn run(tier: Tier) -> i32 {
     let rep = Report::new("C01", tier, "model_checking");
-    rep.set_rule("SCOPE: voices {V0, P1(V0)} + generated G(ns in {2,3}, stage in {0..3}, nstate in {1,2,3,5,7}, 6 window sets incl. two with even-length windows, gv on/off) plus six voices with spectral orders 64..129, a four-window set and a 31-tap low-pass stream) x utterances (empty; 1 label over the cover set Lambda and one-group recombinations; label pairs; corpus windows of 3..8 labels; structurally extreme typed labels) x every condition with <= d deviations from the default over the per-setter alphabets; each case synthesised by the real Engine inside catch_unwind; distinct = (voice, condition, utterance); non-trivial = non-empty utterance");
+    rep.set_rule("SCOPE: voices {V0, P1(V0)} + generated G(ns in {2,3}, stage in {0..3}, nstate in {1,2,3,5,7}, 6 window sets incl. two with even-length windows, gv on/off) plus six voices with spectral orders 64..129, a four-window set and a 31-tap low-pass stream) x utterances (empty; 1 label over the cover set Lambda and one-group recombinations; label pairs; corpus windows of 3..8 labels; structurally extreme typed labels; on three generated voices the whole corpus twice as one utterance of 2912 labels) x every condition with <= d deviations from the default over the per-setter alphabets; each case synthesised by the real Engine inside catch_unwind; plus a synthesis from a thread-local destructor while its thread shuts down (set up before / after the thread's first synthesis, or without one); distinct = (voice, condition, utterance); non-trivial = non-empty utterance");
     rep.assume("labels outside Lambda/RECOMB1/corpus windows, conditions with more deviations than the bound and utterances longer than 8 labels are not explored; stable range = conservative reading (|F1|,|F2|,|F1+F2| <= 4 on a 33-point grid; LSP: K>0, gaps >= pi/(4(order+1)))");
     let st = Stats { in_range: Default::default(), out_range: Default::default(), short_mean: Default::default(), nonfinite_ok: Default::default() };
     let corpus = labels::corpus();
@@ -343,6 +403,23 @@ pub fn run(tier: Tier) -> i32 {
             }
         }
     });
+    // beyond the small scope: the whole corpus twice as one utterance (2912 labels; 5824..14560 states), on three generated
+    // voices, at the default condition and with two single deviations
+    {
+        let long = Utt::Strs(corpus.iter().chain(corpus.iter()).cloned().collect());
+        let cfgs = [
+            GenCfg { nstate: 3, ..GenCfg::default() },
+            GenCfg { nstate: 5, ns: 2, stage: 2, order: 5, gv: true, ..GenCfg::default() },
+            GenCfg { nstate: 2, wset: 3, lpf_taps: 5, ..GenCfg::default() },
+        ];
+        rep.par_for(cfgs.len() * 3, 1, "C01 long utterance", |j| {
+            let Ok(vc) = voice_case(&cfgs[j / 3]) else { return };
+            let acts: Vec<Act> = [vec![], vec![Act::Speed(2.0)], vec![Act::Beta(0.3)]][j % 3].clone();
+            rep.distinct(fnv(format!("long|{}", j).as_bytes()));
+            check_one(&rep, &vc, &acts, &long, &st);
+        });
+    }
+    teardown_part(&rep);
     // ---------- bundled voice and a perturbed copy ----------
     let v0 = v0_case(0);
     let p1 = v0_case(1);
